@@ -151,7 +151,20 @@ def o_member(x, name):
     raise NoFunctionRegisteredException(name)
 
 
+HOOK = None          # C14: wraps every lambda handed to a function (to count applications)
+
+
 def lam(l):
+    f = _lam(l)
+    return HOOK(f) if HOOK else f
+
+
+def lam2(l):
+    f = _lam2(l)
+    return HOOK(f) if HOOK else f
+
+
+def _lam(l):
     """the one-argument lambda described by l as a Python function"""
     t = l[0]
     if t == 'arg':
@@ -160,12 +173,12 @@ def lam(l):
         v = l[1]
         return lambda x: v
     if t == 'not':
-        f = lam(l[1])
+        f = _lam(l[1])
         return lambda x: not f(x)
     if t == 'pair':
-        f, g = lam(l[1]), lam(l[2])
+        f, g = _lam(l[1]), _lam(l[2])
         return lambda x: (f(x), g(x))
-    f = lam(l[1])
+    f = _lam(l[1])
     k = l[2]
     if t == 'add':
         return lambda x: o_plus(f(x), k)
@@ -192,7 +205,7 @@ def o_min(a, b):
     return a if o_gt(b, a) else b
 
 
-def lam2(l):
+def _lam2(l):
     t = l[0]
     if t == 'fst':
         return lambda a, b: a
@@ -211,10 +224,10 @@ def lam2(l):
     if t == 'max':
         return o_max
     if t == 'on1':
-        f = lam(l[1])
+        f = _lam(l[1])
         return lambda a, b: f(a)
     if t == 'on2':
-        f = lam(l[1])
+        f = _lam(l[1])
         return lambda a, b: f(b)
     raise ValueError(l)
 
@@ -1045,6 +1058,17 @@ def lit(v):
     raise ValueError(v)
 
 
+WRAP = '%s'          # C14: 'tick() and (%s)' makes every application observable
+
+
+def rlw(l):
+    return WRAP % rl(l)
+
+
+def rl2w(l):
+    return WRAP % rl2(l)
+
+
 def rl(l, var='$'):
     t = l[0]
     if t == 'arg':
@@ -1101,7 +1125,7 @@ def render_op(r, a):
     m = lambda name, *ps: '%s.%s(%s)' % (r, name, args(*ps))
     if n in ('where', 'select', 'selectMany', 'takeWhile', 'skipWhile', 'indexWhere', 'lastIndexWhere',
              'splitWhere', 'sliceWhere', 'orderBy', 'orderByDescending', 'thenBy', 'thenByDescending'):
-        return m(n, rl(a['l']))
+        return m(n, rlw(a['l']))
     if n == 'attr':
         return '%s.%s' % (r, a['name'])
     if n in ('skip', 'take', 'slice', 'splitAt'):
@@ -1109,7 +1133,7 @@ def render_op(r, a):
     if n == 'append':
         return m(n, *[lit(v) for v in a['vs']])
     if n in ('distinct', 'any', 'all'):
-        return m(n, opt(a, 'l', rl))
+        return m(n, opt(a, 'l', rlw))
     if n == 'enumerate':
         return m(n, opt(a, 'n'))
     if n in ('concat', 'zip'):
@@ -1127,14 +1151,14 @@ def render_op(r, a):
     if n == 'sequenceTake':
         return 'sequence(%s).take(%s)' % (args(opt(a, 'm') or ('0' if a.get('k') is not None else None), opt(a, 'k')), lit(a['n']))
     if n == 'groupBy':
-        ps = [rl(a['l'])]
+        ps = [rlw(a['l'])]
         if a.get('l2'):
-            ps.append(rl(a['l2']))
+            ps.append(rlw(a['l2']))
         if a.get('l3'):
-            ps.append(rl(a['l3']) if a.get('l2') else 'aggregator => ' + rl(a['l3']))
+            ps.append(rlw(a['l3']) if a.get('l2') else 'aggregator => ' + rlw(a['l3']))
         return m(n, *ps)
     if n == 'join':
-        return m(n, lit(a['vs']), rl2(a['f2']), rl2(a['g2']))
+        return m(n, lit(a['vs']), rl2w(a['f2']), rl2w(a['g2']))
     if n == 'repeatTake':
         s = m('repeat', opt(a, 'm'))
         return s if a.get('n') is None else '%s.take(%s)' % (s, lit(a['n']))
@@ -1143,13 +1167,13 @@ def render_op(r, a):
     if n in ('indexOf', 'lastIndexOf', 'contains', 'containsKey', 'containsValue'):
         return m(n, lit(a['v']))
     if n in ('aggregate', 'accumulate'):
-        return m(n, rl2(a['f2']), optv(a, 'v'))
+        return m(n, rl2w(a['f2']), optv(a, 'v'))
     if n == 'mergeWith':
         ps = [lit(a['kv'])]
         if a.get('f2'):
-            ps.append(rl2(a['f2']))
+            ps.append(rl2w(a['f2']))
         if a.get('g2'):
-            ps.append(rl2(a['g2']) if a.get('f2') else 'itemMerger => ' + rl2(a['g2']))
+            ps.append(rl2w(a['g2']) if a.get('f2') else 'itemMerger => ' + rl2w(a['g2']))
         if a['n']:
             ps.append('maxLevels => %d' % a['n'])
         return m(n, *ps)
@@ -1158,7 +1182,7 @@ def render_op(r, a):
     if n == 'defaultIfEmpty':
         return m(n, lit(a['vs']))
     if n == 'generate':
-        return 'generate(%s)' % args(r, rl(a['l']), rl(a['l2']), rl(a['l3']) if a.get('l3') else None,
+        return 'generate(%s)' % args(r, rlw(a['l']), rlw(a['l2']), rlw(a['l3']) if a.get('l3') else None,
                                      'decycle => true' if a['b'] else None)
     if n == 'list':
         return 'list(%s)' % r
@@ -1167,7 +1191,7 @@ def render_op(r, a):
     if n == 'dict':
         return 'dict(%s)' % r
     if n == 'toDict':
-        return m(n, rl(a['l']), opt(a, 'l2', rl))
+        return m(n, rlw(a['l']), opt(a, 'l2', rlw))
     if n == 'index':
         return '%s[%s]' % (r, lit(a['v']))
     if n == 'indexDflt':
